@@ -1,12 +1,12 @@
 SPECIFICATION Spec
 CONSTANTS
-  InitStore <- MC_InitStore
-  VarLists <- MC_VarListsAll
+  InitStore <- MC_RaggedStore
+  VarLists <- MC_VarListsOne
   BaseStore <- MC_BaseStore
-  CutArgs <- MC_CutsAll
+  CutArgs <- MC_CutsRagged
   Fmts <- MC_FmtsTwo
-  MaxHist = 3
-  ExtNames <- MC_ExtNone
+  MaxHist = 4
+  ExtNames <- MC_ExtBoth
   AsFound_AliasWhenNoCutoff = FALSE
   AsFound_PopOnStore = FALSE
   AsFound_BaseCsvDropsT = FALSE
